@@ -70,7 +70,9 @@ def run(chk):
   # 2b. simulated behaviours; the second pass stays away from the two mechanisms with open findings
   n1, d1, n2, d2 = (90, 15, 90, 30) if not thorough else (800, 25, 800, 40)
   for kind, partial, tag in KINDS:
-    add(typedtree.replay_simulated(chk, kind, partial, f'C03_sim_{tag}.cfg', n1, d1, chk.seed, models[kind]))
+    # (list2 exists for the extended-slice actions only: more, longer walks over fewer action families)
+    add(typedtree.replay_simulated(chk, kind, partial, f'C03_sim_{tag}.cfg', n1 * (2 if kind == 'list2' else 1),
+                                   d1 * (2 if kind == 'list2' else 1), chk.seed, models[kind]))
     if (thorough or not partial) and kind != 'list2':      # (the list2 configuration is an Avoid pass itself)
       add(typedtree.replay_simulated(chk, kind, partial, f'C03_sim_avoid_{tag}.cfg', n2, d2, chk.seed + 1, models[kind]))
   chk.notes['action_outcome_hits'] = dict(sorted(hits.items()))
